@@ -23,7 +23,7 @@
        refinement C09_model_refines_spec).  Checked on every run by
        comparing complete model traces with the implementation and judging the implementation traces with (B). *)
 From PS Require Import Lib.Base Generated.Consts Model.SdTypes Model.Config Model.Session Model.StackTypes
-  Model.Stack Model.StackIO Spec.TraceSpec Spec.StoreSpec Proofs.StoreSpecProofs Proofs.TimedStoreProofs Proofs.KeyEquiv Proofs.WorldInv Proofs.WorldInv2 Proofs.WorldTime Proofs.WorldDone Proofs.WorldExpiry.
+  Model.Stack Model.StackIO Spec.TraceSpec Spec.StoreSpec Proofs.StoreSpecProofs Proofs.TimedStoreProofs Proofs.KeyEquiv Proofs.WorldInv Proofs.WorldInv2 Proofs.WorldTime Proofs.WorldDone Proofs.WorldExpiry Model.Skel Generated.LogicGen Proofs.GenSkel.
 
 Section A.
   Context {K : Type} (keqb : K -> K -> bool) (keqb_eq : forall a b, keqb a b = true <-> a = b).
@@ -155,6 +155,36 @@ Example C09_expiry_ok_example :
   /\ expiry_ok [(2 * usec_per_sec + 5, GExpire SFound 7 k); (usec_per_sec + 5, GExpire SFound 7 k); (5, GRefresh SFound 7 k 1)] = false.
 Proof. exact expiry_ok_example. Qed.
 
+(* TimedStore.refresh / stop / _expired / the loop body of stop_all_for_address are the control flow translated from the
+   source text of sd.py on every run (Generated/LogicGen.v, the gen_ts definitions): pop, cancel the popped handle, callback_new (whose
+   NakSubscription ends refresh), arm the timer unless the TTL is infinite, store, call the popped callback - in that order *)
+Theorem C09_refresh_is_the_translated_source : forall st ttl a k w,
+  let d0 := inner a (Stack.touch a (get_store st w)) in
+  let found := match aget key_eqb k d0 with Some _ => true | None => false end in
+  let timer := match aget key_eqb k d0 with Some (Some _) => true | _ => false end in
+  let s := run_tacts st ttl a k (gen_ts_refresh found timer (ttl =? TTL_FOREVER)) w None in
+  store_refresh st ttl a k w = (sk_w s, sk_ok s).
+Proof. exact store_refresh_is_the_translated_source. Qed.
+Theorem C09_stop_is_the_translated_source : forall st a k w o,
+  aget key_eqb k (inner a (Stack.touch a (get_store st w))) = Some o ->
+  store_stop st a k w = sk_w (run_tacts st 0 a k (gen_ts_stop true (match o with Some _ => true | None => false end)) w None).
+Proof. exact store_stop_is_the_translated_source. Qed.
+Theorem C09_expired_is_the_translated_source : forall st a k w o,
+  aget key_eqb k (inner a (Stack.touch a (get_store st w))) = Some o ->
+  store_expired st a k w = ghost (GExpire st a k) (sk_w (run_tacts st 0 a k (gen_ts_expired true (match o with Some _ => true | None => false end)) w None)).
+Proof. exact store_expired_is_the_translated_source. Qed.
+Theorem C09_unknown_entry_does_nothing : forall timer, gen_ts_stop false timer = [] /\ gen_ts_expired false timer = [].
+Proof. exact store_stop_expired_unknown_entry_does_nothing. Qed.
+Theorem C09_stop_all_round_is_the_translated_source : forall st a k o acc,
+  store_callback st k a (cancel_opt o acc)
+  = sk_w (run_tacts st 0 a k (gen_ts_stop_all_each (match o with Some _ => true | None => false end)) acc o).
+Proof. exact store_stop_all_each_is_the_translated_source. Qed.
+
+Print Assumptions C09_refresh_is_the_translated_source.
+Print Assumptions C09_stop_is_the_translated_source.
+Print Assumptions C09_expired_is_the_translated_source.
+Print Assumptions C09_unknown_entry_does_nothing.
+Print Assumptions C09_stop_all_round_is_the_translated_source.
 Print Assumptions C09_expiries_on_time_on_the_stack.
 Print Assumptions C09_expiry_callback_is_on_time.
 Print Assumptions C09_refresh_records_the_new_deadline.
